@@ -513,6 +513,17 @@ def rejections(ctx):
         ("scalar must be a number", lambda: B * torch.tensor(2.0)),
         ("shape with one dimension", lambda: make_leaf_class(set(), [], "R2")(torch.randn(3), False)),
     ]
+    # binary constructors x which of the matrix dimensions disagree (also against 1, which would broadcast) x operand kinds
+    mv_only = make_leaf_class(set(), [], "R3")
+    mk = {"dense": lambda r, c_: LinearOperator.m(torch.randn(r, c_, dtype=torch.float64)), "matrix-free": lambda r, c_: mv_only(torch.randn(r, c_, dtype=torch.float64), False)}
+    for opn, opf in (("add", lambda a_, b_: a_ + b_), ("sub", lambda a_, b_: a_ - b_), ("rsub", lambda a_, b_: b_ - a_)):
+        for (r2, c2, what) in ((2, 3, "rows"), (3, 2, "columns"), (1, 3, "rows against 1"), (3, 1, "columns against 1"), (2, 2, "rows and columns")):
+            for ka, kb in (("dense", "dense"), ("matrix-free", "dense"), ("dense", "matrix-free"), ("matrix-free", "matrix-free")):
+                tests.append(("%s of a 3x3 and a %dx%d operator (%s differ; %s, %s)" % (opn, r2, c2, what, ka, kb),
+                              lambda opf=opf, ka=ka, kb=kb, r2=r2, c2=c2: opf(mk[ka](3, 3), mk[kb](r2, c2))))
+    for (sa, sb, what) in (((3, 2), (3, 3), "inner dimensions differ"), ((3, 2), (1, 3), "inner dimension against 1"), ((3, 1), (2, 3), "inner dimension 1 against 2")):
+        for ka, kb in (("dense", "dense"), ("matrix-free", "dense"), ("dense", "matrix-free")):
+            tests.append(("matmul of a %dx%d and a %dx%d operator (%s; %s, %s)" % (sa + sb + (what, ka, kb)), lambda ka=ka, kb=kb, sa=sa, sb=sb: mk[ka](*sa).matmul(mk[kb](*sb))))
     for name, fn in tests:
         n += 1
         ctx.case(key=("reject", name))
